@@ -12,7 +12,9 @@ RULE = ('Hypothesis documents (profile "full" with extra split/join weight, up t
         'EVERY subset of spine ids (2^n), EVERY subset of the spine types present, and for each document 6 drawn '
         '(ids, types) combinations given together (plus absent ids / absent types).  Oracle: the column -> spine map of '
         'kv/spine.py applied to dumps(doc): unselected columns deleted, all-null rows dropped, text equality; '
-        'kernpy.spine_types(doc, headers) must equal the first line of that projection ([] for no headers).  An '
+        'kernpy.spine_types(doc, headers) must equal the first line of that projection ([] for no headers); every third '
+        'selection is also exported with an Exporter that exported other documents before, with an ExportOptions object '
+        'that was used for narrower documents before, and (every seventh) through kernpy.dump to a file: same text.  An '
         'evaluation is one (document, selection); non-trivial when a split spine is among the deleted or the kept ones '
         'and at least one row disappears or the selection is a proper non-empty subset.')
 ASSUMPTIONS = ['kv/spine.py column tracking (see C02)', 'the full export is aligned with the abstract document (C03)']
@@ -67,6 +69,10 @@ def check(case):
         evals += 1
         if evals % 3 == 0 and K.via_primed(primed, kdoc, **kw) != got:
             raise Bad('exporter-with-a-past', f'spine_ids={ids} spine_types={tys}: an Exporter object that exported other documents and selections before gives a different text than dumps')
+        if evals % 3 == 1 and K.via_reused_options(kdoc, **kw) != got:
+            raise Bad('options-with-a-past', f'spine_ids={ids} spine_types={tys}: an ExportOptions object that was used for other (narrower) documents before gives a different text than dumps')
+        if evals % 7 == 2 and K.via_dump_file(kdoc, **kw) != got:
+            raise Bad('dump-file', f'spine_ids={ids} spine_types={tys}: kernpy.dump writes a different text than dumps returns')
         exp = project(full, exp_rows, a, types, None if ids is None else set(ids), None if tys is None else set(tys))
         if got != exp:
             raise Bad('projection', f'spine_ids={ids} spine_types={tys}\n--- full\n{full_text}--- got\n{got}--- expected\n{exp}',
